@@ -50,6 +50,25 @@ def ratPt? (p : Pt UInt64) : Option (Pt Rat) := do
 
 def allSome {α β} (f : α → Option β) (l : List α) : Option (List β) := l.mapM f
 
+/-- a query point over the rationals together with the REAL one-ulp step of its abscissa
+    (`math.Nextafter(p[0], +Inf)` on the bit pattern), exactly -/
+def ratPtNext? (p : Pt UInt64) : Option (Pt Rat × Rat) := do
+  let q ← ratPt? p
+  let nx ← bitsToRat? (nextUp (Float.ofBits p.x)).toBits
+  pure (q, nx)
+
+/-- THE FINITE-NUDGE CONDITION `NudgeCond` (OrbProofs/C09.lean: `nudgeCond_iff`, `ringContains_of_nudgeCond'`),
+    evaluated exactly with the real one-ulp step: `p.x < next p.x`, and `edgeNudgeOK` on every edge of the
+    implicitly closed ring unless the point is on the boundary.  Where it holds the exact answer of
+    `RingContains` WITH THE ONE-ULP NUDGE is proved to be the even-odd region; where it fails the case rests
+    on the Float twin (sampling).  Evaluated on the base ring of a case: it passes to every rotation, the
+    reversal and the closing (`nudgeCond_rotate`, `nudgeCond_reverse`, `nudgeCond_close`). -/
+def nudgeProvedRing (r : List (Pt Rat)) (q : Pt Rat) (nx : Rat) : Bool :=
+  decide (q.x < nx) &&
+    (((EvenOdd.edges r).all fun se => edgeNudgeOK (fun _ => nx) q se.1 se.2) || EvenOdd.onBoundary r q)
+
+def nudgeTag (b : Bool) : String := if b then "+nudge-proved" else "+nudge-sampled"
+
 def toFP (p : Pt UInt64) : Pt Float := mapPt Float.ofBits p
 
 def clauseOf (nVariants idx : Nat) : String :=
@@ -92,21 +111,38 @@ def judgeRing (r : List (Pt UInt64)) (qs : List (Pt UInt64)) (out : Toks) (exact
     match bad with
     | some (i, j) => s!"propfail {clauseOf nV i} variant={i} point={j} spec={String.ofList want}"
     | none =>
-      -- the exact model (infinitesimal nudge, rationals) on every variant
-      let exOK : Bool :=
-        if !exactModel then true else
-        match allSome ratPt? r, allSome ratPt? qs with
-        | some rq, some qq =>
-          (variants rq).all fun v => String.ofList (qq.map fun q => resChar (ringContains Nudge.inf ebQ v q)) == String.ofList want
-        | _, _ => true
-      if !exOK then "diff exact-model-differs-from-spec" else
+      -- the finite-nudge condition (base ring: it passes to every variant, see `nudgeProvedRing`)
+      let proved : Bool :=
+        match allSome ratPt? r, allSome ratPtNext? qs with
+        | some rq, some qn => qn.all fun (q, nx) => nudgeProvedRing rq q nx
+        | _, _ => false
+      -- the exact model on every variant: infinitesimal nudge, and — where the condition holds — the model
+      -- with the real one-ulp step over the rationals (must both be the spec: the theorems, re-executed)
+      let exOK : Option String :=
+        if !exactModel then none else
+        match allSome ratPt? r, allSome ratPtNext? qs with
+        | some rq, some qn =>
+          if !((variants rq).all fun v => String.ofList (qn.map fun (q, _) => resChar (ringContains Nudge.inf ebQ v q)) == String.ofList want) then
+            some "diff exact-model-differs-from-spec"
+          else if proved && !([rq, rq.reverse].all fun v =>
+              String.ofList (qn.map fun (q, nx) => resChar (ringContains (Nudge.real fun _ => nx) ebQ v q)) == String.ofList want) then
+            some "diff finite-nudge-model-differs-from-spec"
+          else none
+        | _, _ => none
+      match exOK with
+      | some d => d
+      | none =>
       if r.isEmpty then "ok triv-empty-ring" else
-      s!"ok ring{if r.length ≤ 2 then "-degenerate" else ""}{classTag specs}"
+      s!"ok ring{if r.length ≤ 2 then "-degenerate" else ""}{classTag specs}{nudgeTag proved}"
   | _, _ =>
     match allSome ratPt? r, allSome ratPt? qs with
     | some rq, some qq =>
       let want := String.ofList (qq.map fun q => bChar (EvenOdd.inside rq q))
-      if out.all (· == want) then "ok float-ring" else "skip rounding-sensitive"
+      let proved : Bool :=
+        match allSome ratPtNext? qs with
+        | some qn => qn.all fun (q, nx) => nudgeProvedRing rq q nx
+        | none => false
+      if out.all (· == want) then s!"ok float-ring{nudgeTag proved}" else s!"skip rounding-sensitive{nudgeTag proved}"
     | _, _ => "skip non-finite"
 
 /-- `ring <n pts> <m pts> => <token per variant>` -/
@@ -161,7 +197,19 @@ def handlePoly (inp out : Toks) : String :=
             let inHole := match ri with
               | o :: hs => qi.any fun q => EvenOdd.inside o q && hs.any fun h => EvenOdd.inside h q
               | [] => false
-            s!"ok poly{if rs.length > 1 then "+holes" else ""}{if inHole then "+inhole" else ""}")
+            -- points EXACTLY on a hole's boundary (resp. at a hole vertex) that the outer ring contains: the
+            -- answer '0' (already checked against `polyInside`) is decided by the hole clause alone
+            let onHole := match ri with
+              | o :: hs => qi.any fun q => EvenOdd.inside o q && hs.any fun h => EvenOdd.onBoundary h q
+              | [] => false
+            let onHoleVtx := match ri with
+              | o :: hs => qi.any fun q => EvenOdd.inside o q && hs.any fun h => h.any fun v => v.x == q.x && v.y == q.y
+              | [] => false
+            let proved : Bool :=
+              match allSome (allSome ratPt?) rs, allSome ratPtNext? qs with
+              | some rq, some qn => rq.all fun rg => qn.all fun (q, nx) => nudgeProvedRing rg q nx
+              | _, _ => false
+            s!"ok poly{if rs.length > 1 then "+holes" else ""}{if inHole then "+inhole" else ""}{if onHole then "+onhole" else ""}{if onHoleVtx then "+onholevertex" else ""}{nudgeTag proved}")
        | _, _ =>
          (match allSome (allSome ratPt?) rs, allSome ratPt? qs with
           | some rq, some qq =>
@@ -191,7 +239,16 @@ def handleMPoly (inp out : Toks) : String :=
          let want := qi.map fun q => bChar (EvenOdd.multiInside pi q)
          (match firstDiff got.toList want with
           | some j => s!"propfail multipolygon-any-member point={j} spec={String.ofList want}"
-          | none => if ps.isEmpty then "ok triv-empty-multipolygon" else s!"ok mpoly{if ps.length > 1 then "+multi" else ""}")
+          | none =>
+            let onHole := pi.any fun pg => match pg with
+              | o :: hs => qi.any fun q => EvenOdd.inside o q && hs.any fun h => EvenOdd.onBoundary h q
+              | [] => false
+            let proved : Bool :=
+              match allSome (allSome (allSome ratPt?)) ps, allSome ratPtNext? qs with
+              | some pq, some qn => pq.all fun pg => pg.all fun rg => qn.all fun (q, nx) => nudgeProvedRing rg q nx
+              | _, _ => false
+            if ps.isEmpty then "ok triv-empty-multipolygon" else
+            s!"ok mpoly{if ps.length > 1 then "+multi" else ""}{if onHole then "+onhole" else ""}{nudgeTag proved}")
        | _, _ =>
          (match allSome (allSome (allSome ratPt?)) ps, allSome ratPt? qs with
           | some pq, some qq =>
